@@ -45,9 +45,13 @@ func (m *Model) PullEnergyLevel(ctx context.Context, opts ...resource.ReadOption
 		defer close(send)
 		for change := range recv {
 			demand := change.Value.(*traits.EnergyLevel)
-			send <- PullEnergyLevelChange{
+			select {
+			case <-ctx.Done():
+				return
+			case send <- PullEnergyLevelChange{
 				Value:      demand,
 				ChangeTime: change.ChangeTime,
+			}:
 			}
 		}
 	}()
